@@ -3,7 +3,7 @@ From Coq Require Import List Arith Lia Bool PeanoNat String.
 Import ListNotations.
 Notation length := List.length.
 From SP Require Import Skel Gen Expected NetA Inv Pres Dead Top Ghost GhostPres Term Early NetTop.
-From SP Require Result TaskFS TmpInv Slots NetSlots.
+From SP Require Result TaskFS TmpInv Slots NetSlots FanIn.
 
 (* T1: runProcs starts every selected process except the driver, runs the driver in the caller and waits for all;
    Process.Run closes its out-ports on return; the select loop and the port protocol are the modelled ones *)
@@ -151,6 +151,27 @@ Theorem C05_with_slots_nonvacuous :
   /\ (forall v, v < nn (NetSlots.ncfg NetSlots.pdia) -> NetSlots.pcores NetSlots.pdia v <= NetSlots.pcap NetSlots.pdia).
 Proof. split; [exact Top.dia_wf|exact NetSlots.pdia_fit]. Qed.
 
+(* ---- fan-in into the in-ports of one process (FanIn.v).  The network theorems above are about merge-free graphs.  With
+   several producers feeding the same in-ports, the sequential blocking sends of the producers and the sequential blocking
+   receives of the consumer can wait for each other.  For every number of producers and channels, every send and receive
+   order, every number of rounds and every schedule: if the buffer has room for one item per producer, no reachable state
+   is stuck before everything has been sent and received ... *)
+Theorem C05_fanin_no_deadlock : forall (m : nat) (ps : list (list nat * nat)) (co : list nat) (cp : nat) (l : list FanIn.act) (s : FanIn.st),
+  FanIn.wf_in m ps co -> length ps <= cp -> FanIn.run (FanIn.init ps co cp) l = Some s -> ~ FanIn.finished m s ->
+  exists a, FanIn.step s a <> None.
+Proof. exact FanIn.fanin_no_deadlock. Qed.
+
+(* ... and with a smaller buffer the statement is false (finding D21): two producers, three shared in-ports, buffer size 1 --
+   a reachable state in which nobody is done and nobody can move (replayed on the real library with SCIPIPE_BUFSIZE=1) *)
+Theorem C05_fanin_small_buffer_refuted :
+  exists sched s, FanIn.run (FanIn.d21 1) sched = Some s /\ FanIn.stuck s = true /\ FanIn.all_done s = false.
+Proof. exact FanIn.fanin_deadlock. Qed.
+
+(* the hypotheses of C05_fanin_no_deadlock are satisfiable: the configuration of the finding, with buffer size 2 *)
+Theorem C05_fanin_nonvacuous :
+  FanIn.wf_in 3 [([0; 1; 2], 1); ([1; 0; 2], 1)] [2; 0; 1] /\ length [([0; 1; 2], 1); ([1; 0; 2], 1)] <= 2.
+Proof. exact FanIn.fanin_wf_example. Qed.
+
 Print Assumptions C05_code_conforms.
 Print Assumptions C05_no_deadlock.
 Print Assumptions C05_terminates.
@@ -164,3 +185,6 @@ Print Assumptions C05_with_slots_terminates.
 Print Assumptions C05_with_slots_all_done.
 Print Assumptions C05_with_slots_maximal.
 Print Assumptions C05_with_slots_nonvacuous.
+Print Assumptions C05_fanin_no_deadlock.
+Print Assumptions C05_fanin_small_buffer_refuted.
+Print Assumptions C05_fanin_nonvacuous.
